@@ -33,6 +33,7 @@ func (r *c20rng) n(k int) int { return int(r.next() % uint64(k)) }
 
 var c20env = []string{envPort, envDbPath, envDirCount, envRootDirs, envGCPeriod, envNumWorkers, envSendDuration}
 var c20envVal = []string{"7002", "edb", "200", "er1", "3m", "4", "7ms"}
+var c20envZero = []string{"0", "", "0", "", "0s", "0", "0s"} // a well-formed zero (numeric / duration settings only)
 var c20envBad = []string{"abc", "", "-1", "", "5", "1.5", "ms"}
 var c20yamlKey = []string{"port", "dbPath", "maxDirCount", "rootDirs", "gcPeriod", "numWorkers", "sendDuration"}
 var c20yamlVal = []string{"7001", "fdb", "50", "[fr1, fr2]", "2m", "3", "5ms"}
@@ -140,6 +141,8 @@ func TestVerifC20(t *testing.T) {
 				os.Setenv(e, c20envVal[i])
 			case 'm':
 				os.Setenv(e, c20envBad[i])
+			case 'z':
+				os.Setenv(e, c20envZero[i])
 			}
 		}
 		file := ""
@@ -186,7 +189,7 @@ func TestVerifC20(t *testing.T) {
 	all := func(i int) []string {
 		s := []string{"au", "pu", "ap", "pp", "pe", "ae", "zu", "ze", "zp", "mu", "mp"}
 		if i != 1 && i != 3 {
-			s = append(s, "pm", "am", "zm")
+			s = append(s, "pm", "am", "zm", "az", "pz", "zz")
 		}
 		return s
 	}
